@@ -861,7 +861,7 @@ class Interp:
             a, b = fl.get('start'), fl.get('end')
             if a and b and a[0] == 'lit' and b[0] == 'lit' and isinstance(a[1], int) and isinstance(b[1], int) and b[1] - a[1] <= 64:
                 el = [('lit', x) for x in range(a[1], b[1] + (1 if itv[1].endswith('RangeInclusive') else 0))]
-        elif itv[0] == 'lit' and isinstance(itv[1], bytes) and len(itv[1]) <= 64:
+        elif itv[0] == 'lit' and isinstance(itv[1], bytes) and len(itv[1]) <= 128:
             el = [('lit', x) for x in itv[1]]
         elif self.exact_seqs and itv[0] in ('vec', 'array') and len(itv[1]) <= 64 and ground(itv):
             el = list(itv[1])           # a vector / array all of whose elements are known values
@@ -2458,13 +2458,20 @@ def builtin_summary(I, cal, args, node, st):
             return r
     if name == 'try_from' and len(args) == 1 and args[0][0] == 'lit' and isinstance(args[0][1], int) and not isinstance(args[0][1], bool):
         # checked integer conversion of a known number: Ok(n) when the target type holds it, Err otherwise
-        m_ = re.match(r'<(\w+) as core::convert::TryFrom<(\w+)>>::try_from', cal) or re.match(r'core::convert::num::<impl core::convert::TryFrom<(\w+)> for (\w+)>::try_from', cal)
+        # (std spreads these impls over several modules - core::convert::num, ..::ptr_try_from_impls -: the impl header names the types)
+        m_ = re.match(r'<(\w+) as core::convert::TryFrom<(\w+)>>::try_from', cal) or re.match(r'core::convert::num::(?:\w+::)*<impl core::convert::TryFrom<(\w+)> for (\w+)>::try_from', cal)
         if m_:
             tgt = m_.group(1) if cal.startswith('<') else m_.group(2)
             rng = INT_RANGE.get(tgt)
             if rng is not None:
                 fits = rng[0] <= args[0][1] <= rng[1]
                 return [Out('val', ('ctor', 'Ok', (args[0],)) if fits else ('ctor', 'Err', (('unk', 'TryFromIntError'),)), st)]
+    if cal == 'core::mem::size_of' and not args:
+        # size_of::<T>() of a fixed-width integer type is its width in octets (usize / isize: 8 on the 64-bit target the facts are
+        # extracted for - the same assumption as INT_RANGE); any other type stays an opaque call
+        m_ = re.match(r'\[([iu](?:8|16|32|64|128|size))\]$', node.get('targs') or '')          # (the call's generic arguments as the compiler resolved them)
+        if m_:
+            return [Out('val', ('lit', {'8': 1, '16': 2, '32': 4, '64': 8, '128': 16, 'size': 8}[m_.group(1)[1:]]), st)]
     if name in ('is_empty', 'len') and args and args[0][0] == 'lit' and isinstance(args[0][1], (bytes, str)):
         return [Out('val', ('lit', len(args[0][1]) == 0 if name == 'is_empty' else len(args[0][1])), st)]
     if name == 'input_len' and 'nom::traits::InputLength' in cal and len(args) == 1 and args[0][0] == 'lit' and isinstance(args[0][1], (bytes, str)):
@@ -2490,6 +2497,28 @@ def builtin_summary(I, cal, args, node, st):
         bs = args[0][1]
         k = 0 if name == 'first' else len(bs) - 1 if name == 'last' else args[1][1]
         return [Out('val', ('ctor', 'Some', (('lit', bs[k]),)) if 0 <= k < len(bs) else ('ctor', 'None', ()), st)]
+    if cal.startswith('core::slice::<impl [T]>::') and name in ('split_at', 'split_at_checked', 'split_first', 'split_last') and args and seq_elems(args[0]) is not None \
+            and (name in ('split_first', 'split_last') or (len(args) == 2 and args[1][0] == 'lit' and isinstance(args[1][1], int) and not isinstance(args[1][1], bool))):
+        # a slice whose elements are all listed, cut in two: split_at(k) = (s[..k], s[k..]) and panics for k > len (split_at_checked:
+        # None there); split_first() = Some((s[0], s[1..])), split_last() = Some((s[len-1], s[..len-1])), None for the empty slice
+        es, mk = seq_elems(args[0])
+        if name in ('split_at', 'split_at_checked'):
+            k = args[1][1]
+            if 0 <= k <= len(es):
+                pair = ('tuple', (mk(es[:k]), mk(es[k:])))
+                return [Out('val', pair if name == 'split_at' else ('ctor', 'Some', (pair,)), st)]
+            return [Out('div', UNIT, st.event(('panic', cal, tuple(args), node)))] if name == 'split_at' else [Out('val', ('ctor', 'None', ()), st)]
+        if not es:
+            return [Out('val', ('ctor', 'None', ()), st)]
+        return [Out('val', ('ctor', 'Some', (('tuple', (es[0], mk(es[1:])) if name == 'split_first' else (es[-1], mk(es[:-1]))),)), st)]
+    if name == 'get' and cal.startswith('core::slice::<impl [T]>::') and len(args) == 2 and seq_elems(args[0]) is not None and args[1][0] == 'struct' \
+            and args[1][1].rsplit('::', 1)[-1] in ('RangeFrom', 'RangeTo', 'Range', 'RangeFull') and all(v[0] == 'lit' and isinstance(v[1], int) for _n, v in args[1][2]):
+        # slice.get(a..b) on a slice whose elements are all listed: Some(s[a..b]) when a <= b <= len, None otherwise
+        es, mk = seq_elems(args[0])
+        fl = dict(args[1][2])
+        lo = fl['start'][1] if 'start' in fl else 0
+        hi = fl['end'][1] if 'end' in fl else len(es)
+        return [Out('val', ('ctor', 'Some', (mk(es[lo:hi]),)) if 0 <= lo <= hi <= len(es) else ('ctor', 'None', ()), st)]
     if name in ('is_empty', 'len') and args and args[0][0] == 'array':
         return [Out('val', ('lit', len(args[0][1]) == 0 if name == 'is_empty' else len(args[0][1])), st)]
     if name in ('min', 'max') and len(args) == 2 and all(a[0] == 'lit' and isinstance(a[1], int) and not isinstance(a[1], bool) for a in args) \
